@@ -96,6 +96,8 @@ def fixed_scenarios():
     out.append(p.scn("two destructive measurements of one qubit", [("meas", a, 0), ("meas", a, 0), ("g1", b, "X")], {str(a): [1], str(b): [0]}))
     out.append(p.scn("merge racing with a send of its target", [("g2", a, b, "cphase"), ("send", b, 1)]))
     out.append(p.scn("merge racing with a destructive measurement of its control", [("g2", a, b, "cnot"), ("meas", a, 0), ("g1", b, "H")], {str(a): [1]}))
+    p = P([[2, 8], [3, 8], [3, 8]]); a = p.new(1); b = p.new(2); a2 = p.send(a, 2); p.g1(b, "K")
+    out.append(p.scn("send, merge and measurement through one handle", [("send", a2, 0), ("g2", a2, b, "cphase"), ("meas", a2, 1)], {str(a): [0, 1]}))
     # -- the expected deadlocks ----------------------------------------------------------------------------------------
     p = P(); a = p.new(0); b = p.new(1)
     out.append(p.scn("crossing sends", [("send", a, 1), ("send", b, 0)]))
